@@ -331,6 +331,14 @@ def run(rep, tier, seed):
                      "isz(" + u(cs["elems"][0]) + ")", "isz([" + " ".join(u(x) for x in cs["elems"]) + "])"]
             tags = [("setup",), ("boolscalar",), ("boolbcast",)]
         big = cs["kind"] == "rec" and ((cs["name"] == "count" and cs["args"][0] > 1000) or (cs["name"] == "fib" and cs["args"][0] > 12))
+        # history independence (MechMatch: the result is a FUNCTION of definition and arguments): every call / match once more in the
+        # same interpreter - after successful calls, after calls no arm matched, after arity errors - must behave as the first time
+        if not big:
+            n0 = len(stmts)
+            for i in range(n0):
+                if tags[i][0] == "setup": continue
+                again = re.sub(r"^r(\d+) :=", r"rr\1 :=", stmts[i])
+                stmts.append(again); tags.append(("again", i))
         reqs.append({"id": len(reqs), "mode": "session", "stmts": stmts, "opts": {"trace": cs.get("form") != "match" and not big}})
         meta.append((cs, tags))
     nst = sum(len(r["stmts"]) for r in reqs)
@@ -354,13 +362,21 @@ def run(rep, tier, seed):
             if tg[0] == "setup" and st.get("r") != "ok":
                 rep.fail(base + "/setup", f"{stx!r} failed: {st.get('class')} {st.get('msg')}", replay); setup_bad = True; break
         if setup_bad: continue
-        for stx, st, tg in zip(req["stmts"], steps, tags):
+        outcome = {}
+        for si, (stx, st, tg) in enumerate(zip(req["stmts"], steps, tags)):
             if tg[0] == "setup": continue
             ok = st.get("r") == "ok"
             got = absval.absval(st["v"]) if ok else None
             shown = absval.short(got) if ok else f"error {st.get('class')}"
             rp = dict(replay, stmt=stx)
             ncalls += 1
+            if tg[0] != "again": outcome[si] = (ok, got)
+            else:
+                f_ok, f_got = outcome[tg[1]]
+                if (f_ok, f_got) != (ok, got):
+                    rep.fail(base + "/history-dependent", f"{stx!r}: the first evaluation gave {absval.short(f_got) if f_ok else 'an error'}, the same call later in the same interpreter gives {shown}", rp)
+                else: tally["repeat_same"] += 1
+                continue
             if tg[0] == "row":
                 row = cs["rows"][tg[1]]; kind = row["kind"]
                 sig = f"{base}/sel={row['selk']}"
